@@ -1,9 +1,10 @@
----------------------------- MODULE UTPMachine ----------------------------
+\* GENERATED from UTPMachine.tla by tools/gen_complex.py - do not edit
+---------------------------- MODULE CUTPMachine ----------------------------
 (* Forward-mode UTPM objects as a transition system over an explicit heap.         *)
 (* A UTPM object is an array view whose first two axes are (D, P); all public       *)
 (* operations are actions with an explicit read set, write set and result.          *)
 (* Values are exact rationals; arithmetic is that of TPS (defining identities).     *)
-EXTENDS NDA, TPS, TLC
+EXTENDS NDA, CTPS, TLC
 
 CONSTANTS Dg, Pg,          \* degree (number of coefficients) and number of directions of every UTPM in the pool
           Pool,            \* initial objects: sequence of [k |-> "U"|"A", es |-> element shape]
